@@ -149,6 +149,11 @@ func (s *Sim) ids(l []int64) []ecs.ID {
 func (s *Sim) rels(l [][2]int64) []ecs.Relation {
 	out := make([]ecs.Relation, len(l))
 	for i, r := range l {
+		if r[0] >= 1000 {
+			// misuse: a relation given by index to the ID-based API (queries of UnsafeFilter / Filter0)
+			out[i] = ecs.RelIdx(int(r[0]-1000), s.handle(r[1]))
+			continue
+		}
 		out[i] = ecs.RelID(s.IDs[r[0]], s.handle(r[1]))
 	}
 	return out
